@@ -257,10 +257,17 @@ def run(chk):
     import json, os
     with open(os.path.join(build.VERIF, "tables", "c20_infeasible.json")) as fh:
         groups = json.load(fh)["groups"]
+    import re as _re2
+
+    def canon(w):
+        # the table names the instruction; how it addresses memory is not part of the identity of a reviewed report
+        # (index register vs bumped pointer, displacement) - a refactoring of the address arithmetic must not turn a
+        # confirmed-infeasible report into an alarm
+        return _re2.sub(r"\[[^\]]*\]", "[*]", w or "")
     inf_keys = {}
     for g in groups:
         for e in g["entries"]:
-            inf_keys[(e["function"], g["kind"], e["what"])] = {"reason": g["reason"]}
+            inf_keys[(e["function"], g["kind"], canon(e["what"]))] = {"reason": g["reason"]}
     used_inf = set()
     for objname in sorted(res):
         r = res[objname]
@@ -270,7 +277,7 @@ def run(chk):
             chk.broke(b)
         for rp in r["reports"]:
             what = rp["what"] if rp["kind"] in ("address", "mask", "call-argument", "return-value") else rp["insn"]
-            ident = (rp["function"], rp["kind"], what)
+            ident = (rp["function"], rp["kind"], canon(what))
             if ident in inf_keys:
                 used_inf.add(ident)
                 tot["confirmed_infeasible"] += 1
